@@ -297,8 +297,8 @@ def check_C06(ctx):
                 continue
             vsel = [s_ for s_ in p.selectors if s_[0] == "variant" and s_[1] == ("self",)]
             atoms = p.atoms
-            if len(atoms) == 2 and atoms[0].k == "A" and atoms[1].k == "Z":
-                ok = atoms[1].ty == st and atoms[1].n == interp.C(1)
+            if any(a.k == "Z" and a.ty == st for a in atoms):
+                ok = len(atoms) == 2 and atoms[0].k == "A" and atoms[0].ty == st and atoms[1].k == "Z" and atoms[1].ty == st and atoms[1].n == interp.C(1)
                 rep.oblige(ok)
                 nd += 1
                 if not ok:
@@ -328,7 +328,7 @@ def check_C06(ctx):
             if not ok:
                 rep.add("DERIVED", "%s:%s" % (t.key, p.cond_show()), "derived writer of `%s` emits [%s]; declaration order requires %s%s"
                         % (t.key, p.gshow(), "usize variant index then " if aj["kind"] == "enum" else "", [facts.ty_str(x) for x in want]), t.loc)
-    rep.floor("derived writer paths checked against declaration order", nd, 50)
+    rep.floor("derived writer paths checked against declaration order", nd, 45)
     return ("Format v1.1 as a golden set of extracted terms: every built-in writer term (incl. tag constants and native-endian leaf encoders), hash recipe, "
             "header atom and constant is compared with spec/format_v1_1.json; derived writers are compared with the declaration. Together with C01/C02 "
             "(readers equal writers) this is the static content of 'files of this format version stay readable'. Byte-for-byte comparison with an independent encoder over values is not decided.")
